@@ -4,7 +4,7 @@
 (* grouping finalises to the direct denotation.                                              *)
 EXTENDS Agg
 
-Doc(c, v, w, g) == [id |-> <<0>>, cat |-> c, v |-> v, w |-> w, f |-> w, d |-> <<>>, g |-> <<g>>]
+Doc(c, v, w, g) == [id |-> <<0>>, cat |-> c, v |-> v, w |-> w, f |-> w, d |-> <<>>, g |-> <<g>>, q |-> <<4 * Len(v) + 2 * g + 1>>]
 MCDocDomain == {
   Doc(<<0>>, <<1, 3>>, <<1>>, 1),
   Doc(<<1>>, <<-2>>, <<4>>, 1),
@@ -44,7 +44,9 @@ MCReqs == {
      <<"h", HistHard("w", 2, 0, 0, 0, 5, <<>>)>> >>,
   << <<"p", Pct("v", <<0, 50, 90, 100>>)>>,
      <<"t", Terms("cat", 10, 1, CountDesc, << <<"th", TopHits(2, << <<"g", FALSE>>, <<"id", TRUE>> >>, <<"id", "w">>)>> >>)>> >>,
-  << <<"co", Composite(2, << <<"a", "cat", TRUE>>, <<"b", "w", FALSE>> >>, << <<"s", M("sum", "v")>> >>)>> >> }
+  << <<"co", Composite(2, << <<"a", "cat", TRUE>>, <<"b", "w", FALSE>> >>, << <<"s", M("sum", "v")>> >>)>> >>,
+  \* fractional field q (units of 0.05): terms on a full column > one histogram with interval 0.1
+  << <<"t", Terms("g", 10, 1, CountDesc, << <<"h", Hist("q", 2, 0, 0, <<>>)>> >>)>> >> }
 (* value-counting variant (finding F14 mirrored): bucket aggregations on the multi-valued field *)
 MCReqsV == {
   << <<"r", Range("v", << [to |-> 1], [from |-> 1, to |-> 4] >>, << <<"t", Terms("cat", 10, 1, CountDesc, <<>>)>> >>)>> >>,
